@@ -19,7 +19,9 @@ package gossipsim
 import (
 	"bytes"
 	"context"
+	"database/sql"
 	"fmt"
+	"os"
 	"regexp"
 	"runtime"
 	"sort"
@@ -29,6 +31,7 @@ import (
 	"time"
 
 	"github.com/btcsuite/btcd/btcec/v2"
+	"github.com/btcsuite/btcd/chaincfg/v2"
 	"github.com/btcsuite/btcd/chainhash/v2"
 	"github.com/btcsuite/btcd/wire/v2"
 	"github.com/lightningnetwork/lnd/batch"
@@ -36,6 +39,7 @@ import (
 	"github.com/lightningnetwork/lnd/graph/db/models"
 	"github.com/lightningnetwork/lnd/lnwire"
 	"github.com/lightningnetwork/lnd/routing/route"
+	"github.com/lightningnetwork/lnd/sqldb"
 
 	"verif/simcore"
 )
@@ -82,7 +86,7 @@ func relevantGoroutines(self int64) []gState {
 		}
 		body := string(blk)
 		if !(strings.Contains(body, "gossipsim.(*raceSched)") || strings.Contains(body, "lnd/graph/db.") ||
-			strings.Contains(body, "lnd/batch.")) {
+			strings.Contains(body, "lnd/batch.") || strings.Contains(body, "lnd/sqldb.") || strings.Contains(body, "gossipsim.RunStoreRace")) {
 			continue
 		}
 		st := string(m[2])
@@ -228,6 +232,11 @@ func (rs *raceSched) run(total int, done func() int) {
 type raceChan struct {
 	id   uint64
 	info *models.ChannelEdgeInfo
+	// wmu mirrors graph.Builder's per-channel mutex (channelEdgeMtx; the
+	// gossiper's channelMtx above it): lnd never has two add/update calls for
+	// one channel in flight, and updates reach the store in timestamp order.
+	// Lookups, range queries and prune-style deletes are not behind it.
+	wmu sync.Mutex
 }
 
 type hasAnswer struct {
@@ -248,13 +257,35 @@ func raceVertex(tag byte, i int) route.Vertex {
 	return v
 }
 
-func raceHas(st *graphdb.KVStore, id uint64) (hasAnswer, error) {
+func raceHas(st graphdb.Store, id uint64) (hasAnswer, error) {
 	t1, t2, ex, z, err := st.HasV1ChannelEdge(context.Background(), id)
 	a := hasAnswer{exists: ex, zombie: z}
 	if ex {
 		a.u1, a.u2 = t1.Unix(), t2.Unix()
 	}
 	return a, err
+}
+
+// gatedExec puts the scheduler's gates around every transaction of the SQL
+// store (outside the transaction: no parked goroutine holds a database lock).
+type gatedExec struct {
+	graphdb.BatchedSQLQueries
+	rs *raceSched
+}
+
+func (g gatedExec) ExecTx(ctx context.Context, o sqldb.TxOptions, body func(graphdb.SQLQueries) error, reset func()) error {
+	if o.ReadOnly() {
+		g.rs.gate("view-begin")
+	} else {
+		g.rs.gate("update-begin")
+	}
+	err := g.BatchedSQLQueries.ExecTx(ctx, o, body, reset)
+	if o.ReadOnly() {
+		g.rs.gate("view-end")
+	} else {
+		g.rs.gate("update-end")
+	}
+	return err
 }
 
 // RunStoreRace is one run of the arm.
@@ -266,12 +297,55 @@ func RunStoreRace(r *simcore.Run) {
 	nTasks := 2 + tp.CfgDraw(2)
 	lazy := tp.CfgDraw(2) == 1
 
-	kv, err := simcore.OpenSimKV(r.SubDir("race"), "graph.db")
-	r.Must(err, "open simkv")
-	defer kv.Close()
-	store, err := graphdb.NewKVStore(kv, graphdb.WithRejectCacheSize(cacheSize),
-		graphdb.WithChannelCacheSize(cacheSize), graphdb.WithBatchCommitInterval(0))
-	r.Must(err, "NewKVStore")
+	// appended after the arm's other configuration draws
+	sqlBackend := tp.CfgDraw(3) == 2
+	rs := &raceSched{r: r, names: map[int64]string{}}
+	storeOpts := []graphdb.StoreOptionModifier{graphdb.WithRejectCacheSize(cacheSize),
+		graphdb.WithChannelCacheSize(cacheSize), graphdb.WithBatchCommitInterval(0)}
+	var (
+		store    graphdb.Store
+		newFresh func() (graphdb.Store, error)
+		kv       *simcore.SimKV
+	)
+	if sqlBackend {
+		r.Arm = "sqlite/store-race"
+		if sqlTemplate == nil {
+			tp := r.SubDir("sqltpl") + "/t.sqlite"
+			tdb, err := sqldb.NewSqliteStore(&sqldb.SqliteConfig{}, tp)
+			r.Must(err, "open sqlite template")
+			r.Must(tdb.ApplyAllMigrations(context.Background(), sqldb.GetMigrations()), "sqlite migrations")
+			r.Must(tdb.DB.Close(), "close sqlite template")
+			sqlTemplate, err = os.ReadFile(tp)
+			r.Must(err, "read sqlite template")
+		}
+		path := r.SubDir("racesql") + "/graph.sqlite"
+		r.Must(os.WriteFile(path, sqlTemplate, 0o600), "copy sqlite template")
+		sdb, err := sqldb.NewSqliteStore(&sqldb.SqliteConfig{SkipMigrations: true}, path)
+		r.Must(err, "open sqlite")
+		defer sdb.DB.Close()
+		base := sdb.BaseDB
+		exec := sqldb.NewTransactionExecutor(base, func(tx *sql.Tx) graphdb.SQLQueries {
+			return base.WithTx(tx)
+		})
+		scfg := &graphdb.SQLStoreConfig{ChainHash: *chaincfg.MainNetParams.GenesisHash, QueryCfg: sqldb.DefaultSQLiteConfig()}
+		st, err := graphdb.NewSQLStore(scfg, gatedExec{exec, rs}, storeOpts...)
+		r.Must(err, "NewSQLStore")
+		store = st
+		newFresh = func() (graphdb.Store, error) {
+			return graphdb.NewSQLStore(scfg, exec, graphdb.WithBatchCommitInterval(0))
+		}
+	} else {
+		var err error
+		kv, err = simcore.OpenSimKV(r.SubDir("race"), "graph.db")
+		r.Must(err, "open simkv")
+		defer kv.Close()
+		st, err := graphdb.NewKVStore(kv, storeOpts...)
+		r.Must(err, "NewKVStore")
+		store = st
+		newFresh = func() (graphdb.Store, error) {
+			return graphdb.NewKVStore(kv, graphdb.WithBatchCommitInterval(0))
+		}
+	}
 	ctx := context.Background()
 
 	base := int64(1_700_000_000)
@@ -280,7 +354,7 @@ func RunStoreRace(r *simcore.Run) {
 	var chans []*raceChan
 	for i := 0; i < nChans; i++ {
 		id := lnwire.ShortChannelID{BlockHeight: uint32(100 + i), TxIndex: 1}.ToUint64()
-		info, err := models.NewV1Channel(id, chainhash.Hash{}, raceVertex(1, i), raceVertex(2, i),
+		info, err := models.NewV1Channel(id, *chaincfg.MainNetParams.GenesisHash, raceVertex(1, i), raceVertex(2, i),
 			&models.ChannelV1Fields{BitcoinKey1Bytes: raceVertex(3, i), BitcoinKey2Bytes: raceVertex(4, i)},
 			models.WithChannelPoint(wire.OutPoint{Hash: chainhash.Hash{byte(i + 1)}, Index: 0}),
 			models.WithCapacity(100_000))
@@ -328,7 +402,6 @@ func RunStoreRace(r *simcore.Run) {
 		kind string
 		c    *raceChan
 		dir  int
-		t    time.Time
 	}
 	progs := make([][]op, nTasks)
 	for ti := range progs {
@@ -346,7 +419,7 @@ func RunStoreRace(r *simcore.Run) {
 			case d < 6:
 				o = op{kind: "has", c: c}
 			case d < 11:
-				o = op{kind: "update", c: c, dir: tp.Draw(2), t: nextTs()}
+				o = op{kind: "update", c: c, dir: tp.Draw(2)}
 			case d < 12:
 				o = op{kind: "delete", c: c}
 			case d < 13:
@@ -359,23 +432,25 @@ func RunStoreRace(r *simcore.Run) {
 				o = op{kind: "horizon", c: c}
 			}
 			progs[ti] = append(progs[ti], o)
-			r.Logf("task%d op%d: %s chan %d dir %d ts %d", ti, k, o.kind, o.c.id, o.dir, o.t.Unix())
+			r.Logf("task%d op%d: %s chan %d dir %d", ti, k, o.kind, o.c.id, o.dir)
 		}
 	}
 
-	rs := &raceSched{r: r, names: map[int64]string{}, on: true}
-	kv.OnTx = func(write bool) {
-		if write {
-			rs.gate("update-begin")
-		} else {
-			rs.gate("view-begin")
+	rs.on = true
+	if kv != nil {
+		kv.OnTx = func(write bool) {
+			if write {
+				rs.gate("update-begin")
+			} else {
+				rs.gate("view-begin")
+			}
 		}
-	}
-	kv.OnTxEnd = func(write bool) {
-		if write {
-			rs.gate("update-end")
-		} else {
-			rs.gate("view-end")
+		kv.OnTxEnd = func(write bool) {
+			if write {
+				rs.gate("update-end")
+			} else {
+				rs.gate("view-end")
+			}
 		}
 	}
 	var (
@@ -401,13 +476,22 @@ func RunStoreRace(r *simcore.Run) {
 				case "has":
 					_, _ = raceHas(store, o.c.id)
 				case "update":
-					_, _, _ = store.UpdateEdgePolicy(ctx, policy(o.c, o.dir, o.t), opts...)
+					o.c.wmu.Lock()
+					dmu.Lock()
+					t := nextTs()
+					dmu.Unlock()
+					_, _, _ = store.UpdateEdgePolicy(ctx, policy(o.c, o.dir, t), opts...)
+					o.c.wmu.Unlock()
 				case "delete":
 					_, _ = store.DeleteChannelEdges(ctx, lnwire.GossipVersion1, false, true, o.c.id)
 				case "add":
+					o.c.wmu.Lock()
 					_ = store.AddChannelEdge(ctx, o.c.info, opts...)
+					o.c.wmu.Unlock()
 				case "live":
+					o.c.wmu.Lock()
 					_ = store.MarkEdgeLive(ctx, lnwire.GossipVersion1, o.c.id)
+					o.c.wmu.Unlock()
 				case "filter":
 					_, _, _ = store.FilterKnownChanIDs(ctx, lnwire.GossipVersion1,
 						[]graphdb.ChannelUpdateInfo{{ShortChannelID: lnwire.NewShortChanIDFromInt(o.c.id)}})
@@ -432,7 +516,9 @@ func RunStoreRace(r *simcore.Run) {
 	rs.mu.Lock()
 	rs.on = false
 	rs.mu.Unlock()
-	kv.OnTx, kv.OnTxEnd = nil, nil
+	if kv != nil {
+		kv.OnTx, kv.OnTxEnd = nil, nil
+	}
 	for _, k := range opsDone {
 		r.Count("race_op_" + k)
 	}
@@ -444,8 +530,8 @@ func RunStoreRace(r *simcore.Run) {
 	}
 
 	// ---- oracle: live (cached) answers == answers of a fresh store -----------------
-	fresh, err := graphdb.NewKVStore(kv, graphdb.WithBatchCommitInterval(0))
-	r.Must(err, "fresh NewKVStore")
+	fresh, err := newFresh()
+	r.Must(err, "fresh store")
 	for _, c := range chans {
 		live, err := raceHas(store, c.id)
 		r.Must(err, "HasV1ChannelEdge (live)")
@@ -460,7 +546,7 @@ func RunStoreRace(r *simcore.Run) {
 	// Not judged (C20 speaks of what changes the graph and of what is relayed
 	// on receipt, not of what a later gossip query serves): is the channel
 	// cache behind ChanUpdatesInHorizon coherent too?
-	horizon := func(st *graphdb.KVStore) string {
+	horizon := func(st graphdb.Store) string {
 		var out []string
 		for e, err := range st.ChanUpdatesInHorizon(ctx, lnwire.GossipVersion1, graphdb.ChanUpdateRange{}) {
 			if err != nil {
